@@ -109,8 +109,9 @@ class SourceDataWrapper(ABC):
             number_type = known_dtypes.get(dtype_name, dset_row0.dtype)
             ReprCodeConverter.validate_numpy_dtype(number_type)
 
-            # determine the dtype of the data set (2- or 3-tuple)
-            dt = (dtype_name, number_type)
+            # determine the dtype of the data set (2- or 3-tuple); chunks are kept in native byte order,
+            # so that FrameData's byteswap() always produces big-endian bytes (also for array-valued slots)
+            dt = (dtype_name, np.dtype(number_type).newbyteorder('='))
             if dset_row0.ndim > 1:
                 if dset_row0.ndim > 2:
                     raise RuntimeError("Data sets with more than 2 dimensions are not supported")
